@@ -309,13 +309,53 @@ def run(ctx: Ctx):
                 if d in BANNED_CALLS or d.startswith("os.environ") or d.startswith("random.") or d.startswith("datetime."):
                     ctx.fail("no-ambient-sources", f"{rel}:{d}", f"call of {d} in the generator", rel, node.lineno)
                 if d.startswith("uuid."):
-                    # must be inside a lambda that is the converter of an id_ field
-                    q = m.parents.get(node)
-                    inside_id = False
-                    while q is not None:
-                        if isinstance(q, ast.AnnAssign) and isinstance(q.target, ast.Name) and q.target.id == "id_":
-                            inside_id = True
-                        q = m.parents.get(q)
+                    # the random value may only become the value of an `id_` field: the call sits inside the definition of an
+                    # id_ field, or inside a function / partial that is only ever used to define id_ fields
+                    def in_id_field(n_):
+                        q = m.parents.get(n_)
+                        while q is not None:
+                            if isinstance(q, (ast.AnnAssign, ast.Assign)):
+                                tg = [q.target] if isinstance(q, ast.AnnAssign) else q.targets
+                                if any(isinstance(t_, ast.Name) and t_.id == "id_" for t_ in tg):
+                                    return True
+                            q = m.parents.get(q)
+                        return False
+
+                    def only_for_id(name, depth=0):
+                        """every use of the module-level name (a function, a partial) ends up defining an id_ field"""
+                        if depth > 3:
+                            return False
+                        uses = [n_ for n_ in ast.walk(m.tree) if isinstance(n_, ast.Name) and n_.id == name
+                                and isinstance(n_.ctx, ast.Load)]
+                        if not uses:
+                            return True
+                        for u in uses:
+                            if in_id_field(u):
+                                continue
+                            # bound into another module-level helper (functools.partial(attrs.field, converter=F), a def)
+                            q = m.parents.get(u)
+                            holder = None
+                            while q is not None:
+                                if isinstance(q, (ast.Assign, ast.AnnAssign)) and m.parents.get(q) is m.tree:
+                                    tg = [q.target] if isinstance(q, ast.AnnAssign) else q.targets
+                                    if len(tg) == 1 and isinstance(tg[0], ast.Name):
+                                        holder = tg[0].id
+                                    break
+                                if isinstance(q, ast.FunctionDef) and m.parents.get(q) is m.tree:
+                                    holder = q.name
+                                    break
+                                q = m.parents.get(q)
+                            if holder is None or holder == name or not only_for_id(holder, depth + 1):
+                                return False
+                        return True
+                    inside_id = in_id_field(node)
+                    if not inside_id:
+                        fn_ = m.enclosing_function(node)
+                        top = fn_
+                        while top is not None and m.parents.get(top) is not m.tree:
+                            top = m.enclosing_function(top)
+                        if isinstance(top, ast.FunctionDef):
+                            inside_id = only_for_id(top.name)
                     ctx.check(inside_id, "uuid-confined", f"{rel}:{d}", f"{d} is used outside an id_ converter", rel, node.lineno)
             if isinstance(node, ast.Attribute) and dotted(node) == "os.environ":
                 ctx.fail("no-ambient-sources", f"{rel}:os.environ", "os.environ is read by the generator", rel, node.lineno)
@@ -523,9 +563,13 @@ def produced_keys(idx: Index, m: Module, fn, iter_expr):
                     return e.value
                 if isinstance(e, ast.BinOp) and isinstance(e.op, ast.Add):
                     return str_suffix(e.right, fx, depth + 1)
+                if isinstance(e, ast.NamedExpr):
+                    return str_suffix(e.value, fx, depth + 1)
                 if isinstance(e, ast.Name):
                     defs = [s3.value for s3 in ast.walk(fx)
                             if isinstance(s3, ast.Assign) and any(dotted(t) == e.id for t in s3.targets)]
+                    defs += [s3.value for s3 in ast.walk(fx)
+                             if isinstance(s3, ast.NamedExpr) and isinstance(s3.target, ast.Name) and s3.target.id == e.id]
                     got = {str_suffix(v, fx, depth + 1) for v in defs}
                     return next(iter(got)) if len(got) == 1 else None
                 if isinstance(e, ast.Call):
